@@ -286,3 +286,23 @@ pub mod d10_name_combos {
         },
     }
 }
+
+pub mod d11_unicode_fields {
+    //! field identifiers outside ASCII: generated short, long and value names are taken by character, not by byte
+    use embedded_cli::Command;
+
+    #[derive(Command)]
+    pub enum Cmd<'a> {
+        /// Non-ASCII field identifiers
+        Uni {
+            /// generated short and long from a Cyrillic identifier
+            #[arg(short, long)]
+            ключ: Option<&'a str>,
+            /// flag with a generated short from a two-byte Latin identifier
+            #[arg(short)]
+            émis: bool,
+            /// required positional
+            путь: &'a str,
+        },
+    }
+}
